@@ -157,6 +157,9 @@ func (cmb Combiner) GenAdditiveShare(activesPoints []ShamirPublicPoint, ownPoint
 	for _, active := range activesPoints[:cmb.threshold] {
 		//Lagrange Interpolation with the public threshold key of other active players
 		if active != ownPoint {
+			if cmb.pointsCollide(ownPoint, active) {
+				return fmt.Errorf("cannot GenAdditiveShare: public points %d and %d are not distinct modulo every modulus of the ring", ownPoint, active)
+			}
 			cmb.tmp1 = cmb.lagrangeCoeffs[active]
 			cmb.ringQP.MulRNSScalar(prod, cmb.tmp1, prod)
 		}
@@ -164,6 +167,24 @@ func (cmb Combiner) GenAdditiveShare(activesPoints []ShamirPublicPoint, ownPoint
 
 	cmb.ringQP.MulRNSScalarMontgomery(ownShare.Poly, prod, skOut.Value)
 	return
+}
+
+// pointsCollide returns true if the two points are congruent modulo one of the moduli of the ring,
+// in which case their difference is not invertible and the Lagrange coefficient does not exist.
+func (cmb Combiner) pointsCollide(a, b ShamirPublicPoint) bool {
+	for _, s := range cmb.ringQP.RingQ.SubRings {
+		if uint64(a)%s.Modulus == uint64(b)%s.Modulus {
+			return true
+		}
+	}
+	if cmb.ringQP.RingP != nil {
+		for _, s := range cmb.ringQP.RingP.SubRings {
+			if uint64(a)%s.Modulus == uint64(b)%s.Modulus {
+				return true
+			}
+		}
+	}
+	return false
 }
 
 func (cmb Combiner) lagrangeCoeff(thisKey ShamirPublicPoint, thatKey ShamirPublicPoint, lagCoeff []uint64) {
